@@ -332,6 +332,25 @@ def do_sort_legcharges(ctx, rng, i):
     finish(ctx, i, 'sort_legcharges', H, kind, len(sites), case)
 
 
+def truncate_probe(ctx):
+    """Wrap tenpy's truncate() once per worker; while probe['eps'] is a list every truncation performed appends its error."""
+    if getattr(ctx, '_c11_probe', None) is None:
+        from tenpy.linalg import truncation
+        from vf.monitor import patch_everywhere
+        state = {'eps': None}
+        orig = truncation.truncate
+
+        def truncate(S, options):
+            res = orig(S, options)
+            if state['eps'] is not None:
+                state['eps'].append(float(res[2].eps))
+            return res
+
+        ctx.count('probe.truncate_rebinds', patch_everywhere(orig, truncate))
+        ctx._c11_probe = state
+    return ctx._c11_probe
+
+
 def do_apply(ctx, rng, i):
     from vf import dense
     H, ref, sites, kind, terms, strengths = make_mpo(rng)
@@ -358,9 +377,23 @@ def do_apply(ctx, rng, i):
                 raise _Skip()
             opts.update(max_sweeps=6, min_sweeps=2, tol_theta_diff=1e-14, max_trunc_err=None)
         if method == 'zip_up':
-            opts.update(m_temp=3, trunc_weight=1.0)
-        err = H.apply(psi, opts)
+            opts.update(m_temp=int(rng.choice([1, 2, 3])), trunc_weight=1.0)
+            case['options']['m_temp'] = opts['m_temp']
+        probe = truncate_probe(ctx)
+        probe['eps'] = []
+        try:
+            err = H.apply(psi, opts)
+        finally:
+            performed, probe['eps'] = probe['eps'], None
         eps = float(getattr(err, 'eps', 0.0))
+        if method in ('SVD', 'zip_up'):
+            # ledger: the reported error is the sum of the errors of the truncations that were performed
+            ctx.count('apply.ledger_checked')
+            if sum(performed) > 1e-14:
+                ctx.count('apply.ledger_nonzero')
+            if abs(eps - sum(performed)) > 1e-10 * max(1e-6, sum(performed)):
+                ctx.violation('apply.%s:reported-error-differs-from-sum-of-truncations' % method, 'reported eps %r, sum over the %d '
+                              'truncations performed %r' % (eps, len(performed), sum(performed)), case)
     got = dense.finite_vector(psi).reshape(-1)
     tn = np.linalg.norm(target)
     # direction within the reported truncation error; norm tracked when nothing was truncated
@@ -370,8 +403,12 @@ def do_apply(ctx, rng, i):
         if abs(ov - 1) > 1e-7 or abs(np.linalg.norm(got) - tn) > 1e-6 * max(1, tn):
             ctx.violation('apply.%s:wrong-state-without-truncation' % method, 'overlap %r, |O psi| = %r, |result| = %r' % (ov, tn, np.linalg.norm(got)), case)
     else:
-        if method in ('SVD', 'zip_up') and 1 - ov**2 > max(eps, 0) * (1 + 1e-6) * 4 + 1e-9 and 1 - ov**2 > 0.5:
-            ctx.violation('apply.%s:far-beyond-reported-truncation-error' % method, '1-|<a|b>|^2 = %g, reported eps %g' % (1 - ov**2, eps), case)
+        # SVD compression truncates in canonical form: the reported discarded weight bounds the loss of fidelity (zip-up truncates in
+        # a non-canonical gauge, where the discarded weight is only an estimate -- ratios > 1000 occur on correct code)
+        if method == 'SVD' and 1 - ov**2 > max(eps, 0) * (1 + 1e-6) + 1e-9:
+            ctx.violation('apply.SVD:beyond-reported-truncation-error', '1-|<a|b>|^2 = %g, reported eps %g' % (1 - ov**2, eps), case)
+        if method == 'zip_up' and 1 - ov**2 > 0.5 and eps < 1e-12:
+            ctx.violation('apply.zip_up:large-error-reported-as-zero', '1-|<a|b>|^2 = %g, reported eps %g' % (1 - ov**2, eps), case)
     finish(ctx, i, 'apply', H, kind, L, case)
 
 
